@@ -110,11 +110,13 @@ def shard(ctx):
                 elif r['status'] == 'ok':
                     ctx.case(sha(data, api.opts_key(opts)), True, classes=['corpus'], sample={'file': e['path'], 'renamed': len(r['renamed'])})
 
-    # the same oracle inside the 3.11 worker, with the symtable cross-check of the resolver
-    if fleet.interpreter_path('3.11') is None:
-        ctx.note('interpreter_missing:3.11')
+    # the same oracle inside other interpreters (pre-PEP 709 scoping; version-specific binding code of the minifier), with the
+    # symtable cross-check of the resolver on input and output where symtable still reports comprehension scopes (<= 3.11)
+    wv = ['3.11', '3.8', '3.11', '3.9', '3.11', '3.10', '3.11', '3.13'][ctx.index % 8]
+    if fleet.interpreter_path(wv) is None:
+        ctx.note('interpreter_missing:' + wv)
         return
-    w = fleet.get_worker('3.11')
+    w = fleet.get_worker(wv)
 
     def prop_w(case):
         prog, opts = case
@@ -125,23 +127,23 @@ def shard(ctx):
         req.update(f)
         rep = w.call(req)
         if rep.get('timeout') or rep.get('worker_died'):
-            ctx.note('worker_timeout_or_death:3.11')
+            ctx.note('worker_timeout_or_death:' + wv)
             return
         if 'harness_error' in rep:
-            raise RuntimeError('worker 3.11: %s' % rep['harness_error'])
+            raise RuntimeError('worker %s: %s' % (wv, rep['harness_error']))
         if rep.get('resolver_disagrees_with_symtable'):
             raise RuntimeError('resolver disagrees with symtable (harness bug): %r on %r' % (rep['resolver_disagrees_with_symtable'], prog.source))
         ctx.notes['oracle_validated_scopes'] += rep.get('validated_scopes', 0)
         if rep['status'] in ('domain', 'raises'):
-            ctx.note('not_evaluable:3.11:' + rep['status'])
+            ctx.note('not_evaluable:%s:%s' % (wv, rep['status']))
             ctx.evaluations += 1
             return
         if rep['status'] == 'violation':
-            ctx.case(sha(prog.source, api.opts_key(opts), '3.11'), True, classes=['violating'])
-            ctx.fail({'source': prog.source, 'opts': opts, 'interp': '3.11'}, tuple(rep['signature']) + ('3.11',), rep['detail'])
+            ctx.case(sha(prog.source, api.opts_key(opts), wv), True, classes=['violating'])
+            ctx.fail({'source': prog.source, 'opts': opts, 'interp': wv}, tuple(rep['signature']) + (wv,), rep['detail'])
             return
         nt = bool(rep['renamed'] or rep['aliases']) and rep['n_scopes'] >= 3
-        ctx.case(sha(prog.source, api.opts_key(opts), '3.11'), nt, classes=['interp:3.11'] + (['renamed:3.11'] if rep['renamed'] else []),
-                 sample={'interpreter': '3.11', 'source': prog.source[:300], 'renamed': rep['renamed'][:6]})
+        ctx.case(sha(prog.source, api.opts_key(opts), wv), nt, classes=['interp:' + wv] + (['renamed:' + wv] if rep['renamed'] else []),
+                 sample={'interpreter': wv, 'source': prog.source[:300], 'renamed': rep['renamed'][:6]})
 
-    hyp_run(ctx, 'w311', st.tuples(progs.programs(profile='shape', level=(3, 11)), rename_option_sets()), prop_w, ctx.n(1600, 100000))
+    hyp_run(ctx, 'w' + wv, st.tuples(progs.programs(profile='shape', level=fleet.level_of(wv)), rename_option_sets()), prop_w, ctx.n(1600, 100000))
